@@ -159,7 +159,26 @@ def parseDim (w : String) : Option (Nat × Nat) :=
   | [a, b] => do pure (← a.toNat?, ← b.toNat?)
   | _ => none
 
+def showRange (r : Option (Nat × Nat)) : String :=
+  match r with
+  | some (a, b) => s!"{a}..{b}"
+  | none => "none"
+
+/-- `R start stop step n`: `SliceRange::{steps, resolve, resolve_clamped}`. -/
+def handleRange (ws : List String) : String :=
+  match ws with
+  | [a, b, c, n] =>
+    match a.toInt?, (if b == "_" then some none else b.toInt?.map some), c.toInt?, n.toNat? with
+    | some s, some e, some t, some n =>
+      let r : SliceRange := ⟨s, e, t⟩
+      match r.resolveClamped n with
+      | some cl => s!"steps={r.steps n} resolve={showRange (r.resolve n)} clamped={showRange (some cl)}"
+      | none => "panic"
+    | _, _, _, _ => "bad-request"
+  | _ => "bad-request"
+
 def handle (line : String) : String :=
+  if line.startsWith "R " then handleRange ((words line).drop 1) else
   match line.splitOn " | " with
   | src :: opsS =>
     match words src with
